@@ -248,3 +248,26 @@ Theorem serve_recent_is_latest : forall acts s tr b, wrun ws0 acts = Some (s, tr
   w_fver s b <> None /\ forall b' v, w_fver s b' = Some v -> (b' <= b)%nat.
 Proof. exact serve_recent_is_latest_all. Qed.
 Print Assumptions serve_recent_is_latest.
+
+(* "a change during a build triggers exactly one more build": at least one -
+   a change is never missed ... *)
+Theorem watch_change_is_noticed : forall s, w_wpc s = WSleep -> w_disposed s = false -> w_client s = CNone ->
+  (w_watched s < w_edits s)%nat -> exists s', wexec s XWatcher = Some (s', WBuild (w_nb s)).
+Proof. exact change_is_noticed. Qed.
+Print Assumptions watch_change_is_noticed.
+
+(* ... at most one per change by watch_builds_coalesced as far as the watcher's
+   own builds are concerned; but "no build unless the latest result is out of
+   date" is FALSE of the faithful model: the watcher goroutine's second
+   setWatchData can overwrite the newer data of a client build that ran in
+   between (witness below; it needs the watcher goroutine to be preempted
+   between `w.rebuild()` returning and `w.setWatchData`, while a complete client
+   build runs - not reproducible by a test on the real code, so it is recorded
+   as an observation about the model, not as a finding: the effect is one
+   redundant build, never a missed change) *)
+Theorem watch_no_redundant_build_refuted :
+  exists s tr s' b, wrun ws0 wit_redundant = Some (s, tr) /\
+    w_fver s b = Some (w_edits s) /\ w_client s = CNone /\
+    wexec s XWatcher = Some (s', WBuild (w_nb s)).
+Proof. exact redundant_watch_build_possible. Qed.
+Print Assumptions watch_no_redundant_build_refuted.
